@@ -143,18 +143,28 @@ class StateUpdater:
 
         async def read_state_mutex() -> None:
             """Schedule to read the state from the KNX bus - one at a time."""
-            async with self._semaphore:
+            await self._semaphore.acquire()
+            try:
                 # wait until there is nothing else to send to the bus
                 await self.xknx.telegram_queue.outgoing_queue.join()
-                logger.debug(
-                    "StateUpdater reading %s for %s - %s",
-                    remote_value.group_address_state,
-                    remote_value.device_name,
-                    remote_value.feature_name,
-                )
-                # shield from cancellation so update_received() don't cancel the
-                # ValueReader leaving the telegram_received_cb until next telegram
-                await asyncio.shield(remote_value.read_state(wait_for_result=True))
+            except BaseException:
+                self._semaphore.release()
+                raise
+            logger.debug(
+                "StateUpdater reading %s for %s - %s",
+                remote_value.group_address_state,
+                remote_value.device_name,
+                remote_value.feature_name,
+            )
+            # shield from cancellation so update_received() don't cancel the
+            # ValueReader leaving the telegram_received_cb until next telegram.
+            # The semaphore is held until the shielded read has really finished,
+            # so a cancelled tracker does not free its slot while its read is pending.
+            read_task = asyncio.ensure_future(
+                remote_value.read_state(wait_for_result=True)
+            )
+            read_task.add_done_callback(lambda _: self._semaphore.release())
+            await asyncio.shield(read_task)
 
         tracker_options = self.parse_tracker_options(tracker_options, str(remote_value))
         tracker = _StateTracker(
